@@ -71,7 +71,8 @@ func (lim *localStreamLimits) setMax(maxStreams int64) {
 
 // remoteStreamLimits are limits on the number of open streams created by the peer.
 type remoteStreamLimits struct {
-	max     int64   // last MAX_STREAMS sent to the peer
+	max     int64   // MAX_STREAMS value sent, or about to be sent, to the peer
+	sentMax int64   // largest stream limit actually sent to the peer
 	opened  int64   // number of streams opened by the peer (including subsequently closed ones)
 	closed  int64   // number of peer streams in the "closed" state
 	maxOpen int64   // how many streams we want to let the peer simultaneously open
@@ -81,13 +82,16 @@ type remoteStreamLimits struct {
 func (lim *remoteStreamLimits) init(maxOpen int64) {
 	lim.maxOpen = maxOpen
 	lim.max = min(maxOpen, implicitStreamLimit) // initial limit sent in transport parameters
+	lim.sentMax = lim.max
 	lim.opened = 0
 }
 
 // open handles the peer opening a new stream.
 func (lim *remoteStreamLimits) open(id streamID) error {
 	num := id.num()
-	if num >= lim.max {
+	if num >= lim.sentMax {
+		// The limit the peer has to respect is the one we have sent,
+		// not an increase we have decided on but not sent yet.
 		return localTransportError{
 			code:   errStreamLimit,
 			reason: "stream limit exceeded",
@@ -133,6 +137,7 @@ func (lim *remoteStreamLimits) appendFrame(w *packetWriter, typ streamType, pnum
 			return false
 		}
 		lim.sendMax.setSent(pnum)
+		lim.sentMax = lim.max
 	}
 	return true
 }
